@@ -240,6 +240,7 @@ partial def runOps (kb : KB) (ops : List TOp) (g : G) (hs : List (Nat × Term ×
 def handleTimer (toks : List String) : String :=
   match toks with
   | ["timer-real"] => "real"
+  | ["timer-stopped"] => "stopped"
   | "RULES" :: nr :: rest =>
     match nr.toNat? with
     | some m =>
